@@ -325,7 +325,24 @@ class Interp:
     def e_JoinedStr(self, e, env):
         if all(isinstance(v, ast.Constant) and isinstance(v.value, str) for v in e.values):
             return VStr("".join(v.value for v in e.values))
-        return VOpaque("f-string")
+        # an f-string made of literal text and plain {name} fields of string variables is a
+        # concatenation; anything else (conversions, format specs, non-strings) is a message
+        parts = []
+        for v in e.values:
+            if isinstance(v, ast.Constant) and isinstance(v.value, str):
+                parts.append(z3.StringVal(v.value))
+            elif isinstance(v, ast.FormattedValue) and v.conversion == -1 and v.format_spec is None \
+                    and isinstance(v.value, ast.Name):
+                try:
+                    val = env.lookup(v.value.id)
+                except KeyError:
+                    return VOpaque("f-string")
+                if not isinstance(val, VStr):
+                    return VOpaque("f-string")
+                parts.append(val.term)
+            else:
+                return VOpaque("f-string")
+        return VStr(z3.Concat(*parts) if len(parts) > 1 else parts[0])
 
     def e_Attribute(self, e, env):
         obj = self.eval(e.value, env)
